@@ -294,7 +294,10 @@ def run_shard(shard):
             if row[2] in ("numeric", "cct"):
                 vals.append((1, (1).to_bytes(w, "big")))
         if row[2] == "string":
-            vals += [("", b"\x00"), ("abc", b"abc\x00"), ("Z" * w, b"Z" * w)]
+            # every length 0..w: shorter strings are stored NUL-terminated, a full-length one without terminator
+            for L in range(w + 1):
+                st = "".join(chr(0x41 + (i % 26)) for i in range(L))
+                vals.append((st, st.encode("ascii") + (b"\x00" if L < w else b"")))
         for v, raw in vals:
             cfg = dict(bank=bname, name=name, raw=raw.hex(), fam=fam, lock=0xFF, variant="standard", via="write", value=v,
                        opts={"allow_short_write": True} if row[2] == "string" else {})
@@ -302,6 +305,13 @@ def run_shard(shard):
             r = judge(res, cfg, h, row, kind, val, n)
             res["evaluations"] += 1
             res["distinct"].add((name, "write", str(v)[:5], r))
+            if row[2] == "string" and kind == "return":
+                # what a reader gets back afterwards must be the string that was written (reference decode of the stored cells)
+                stored = bytes(h.bank.cells[l] if h.bank.cells[l] is not None else 0xFF for l in range(row[3], row[4] + 1))
+                back = M.ref_decode(row, stored)
+                if back != v:
+                    add_violation(res, f"C10:string-reads-back-differently:{name}", f"{cfg}: wrote {v!r}, the stored bytes {stored!r} read back as {back!r}",
+                                  dict(cfg, t="write", injected=[]))
     sample(res, {"writable": name, "bank": bname, "width": w, "fault_bound": bound})
     return res
 
